@@ -1716,6 +1716,26 @@ def synth_sources(op, storm=None):
     return units, {i: exp for i in idx}
 
 
+def closure_instance_sources(n=4):
+    """Several live closures made from ONE lambda expression (a factory) capture different functions; each captured
+    function is the only referrer of a shadowed binding.  After the redefinitions the old functions are reachable
+    only through the captures of the instances: the recycler has to scan the captures of EVERY instance."""
+    units = ["(define c06mk (lambda (f) (lambda () (f))))"]
+    for j in range(1, n + 1):
+        units += ["(define c06k%d %d)" % (j, 100 + j), "(define c06h%d (lambda () (list %d c06k%d)))" % (j, j, j),
+                  "(define c06c%d (c06mk c06h%d))" % (j, j)]
+    for j in range(1, n + 1):
+        units += ["(define c06h%d 0)" % j, "(define c06k%d 0)" % j]
+    probe = "(list " + " ".join("(c06c%d)" % j for j in range(1, n + 1)) + ")"
+    exp = "OK (" + " ".join("(I%d I%d)" % (j, 100 + j) for j in range(1, n + 1)) + ")"
+    storm1 = ["(define c06junk %d)" % i for i in range(130)]
+    fresh1 = ["(define c06fresh%d %d)" % (i, i) for i in range(140)]
+    storm2 = ["(define c06junk %d)" % i for i in range(230)]
+    fresh2 = ["(define c06more%d %d)" % (i, 1000 + i) for i in range(240)]
+    units = units + storm1 + [probe] + fresh1 + [probe] + storm2 + [probe] + fresh2 + [probe]
+    return units, {i: exp for i, u in enumerate(units) if u == probe}
+
+
 def run_sources(ck, cases, jit):
     env = {} if jit else {"STEEL_JIT": "false"}
     res = ck.eval_cases([c[0] for c in cases], prelude=PRELUDE, batch=1, timeout_per_batch=240, env=env, fresh=True)
@@ -1835,6 +1855,8 @@ def run(ck):
     pri = [x for x in synth if x[0] in missing] + [x for x in synth if x[0] not in missing]
     n_synth_fail = check_sources(ck, pri, "scan_covers_refs" if missing else "single-reference history")
 
+    n_synth_fail += check_sources(ck, [("capture of a closure instance (several instances of one lambda)", closure_instance_sources())],
+                                  "closure instances")
     ck.log("single-reference histories: %d failing" % n_synth_fail)
     # ---- random histories
     plan = size_plan(ck)
